@@ -134,6 +134,27 @@ def search(job):
                         out.append({"kind": "C", "schema": schema_state, "instances": list(insts), "output": output, "error_format": ef, "stdin": ss, "problem": p})
                         if len(out) >= job.get("limit", 3):
                             return {"failures": out, "tried": tried}
+    # the real process boundary: `python -m jsonschema` exits with the status run() computed
+    import subprocess
+    d = tempfile.mkdtemp(prefix="pyvc_cli_", dir=os.environ.get("PYVC_SCRATCH") or None)
+    try:
+        sp, good, bad = os.path.join(d, "s.json"), os.path.join(d, "good.json"), os.path.join(d, "bad.json")
+        json.dump(SCHEMAS["valid"], open(sp, "w"))
+        json.dump(INSTANCES["valid"], open(good, "w"))
+        json.dump(INSTANCES["invalid1"], open(bad, "w"))
+        env = dict(os.environ, PYTHONPATH=job["root"], PYTHONDONTWRITEBYTECODE="1")
+        for argv, want_zero in ((["-i", good, sp], True), (["-i", bad, sp], False), (["-i", good, "-i", bad, sp], False), (["-i", good, os.path.join(d, "nope.json")], False)):
+            tried += 1
+            try:
+                pr = subprocess.run([sys.executable, "-W", "ignore", "-m", "jsonschema"] + argv, capture_output=True, text=True, env=env, cwd=job["root"], timeout=120)
+                code = pr.returncode
+            except Exception as e:      # noqa
+                code = "EXC %s" % type(e).__name__
+            if (code == 0) != want_zero:
+                out.append({"kind": "C", "schema": "valid", "instances": [os.path.basename(a) for a in argv if a.endswith(".json")][:-1], "process": True,
+                            "problem": "python -m jsonschema exited with %r, expected %s" % (code, "0" if want_zero else "non-zero")})
+    finally:
+        shutil.rmtree(d, ignore_errors=True)
     # explicit --validator: the schema is checked with that class
     jsonschema, cli, validators = mods
     for vname, schema, want_ok in (("Draft3Validator", {"required": ["a"]}, False), ("Draft4Validator", {"exclusiveMinimum": 5}, False),
